@@ -229,6 +229,18 @@ pub fn langid_space(cfg: &Cfg, tag: &str, f: &ByteCheck<'_>) -> Stats {
     d.list("sanitisation slips: well-formed ids padded with whitespace / control characters / separators, or with a letter that case-folds to ASCII", &sanitisation_slips(SLIP_BASES_LANGID));
     d.list("every single-byte substitution (256 values x every position) of 10 well-formed language ids", &byte_substitutions(SLIP_BASES_LANGID));
     d.after_neighbours("hidden state: G2 language ids, each evaluated right after every one-character neighbour (proptest)", &gen::s_langid_bytes(), cfg.seed, &format!("{tag}-nb"), n / 8, |b| b.clone());
+    {
+        // subtags whose length wraps to a legal one when narrowed to 8 bits, in every position
+        let mut wraps: Vec<Vec<u8>> = vec![];
+        for l in [2usize, 3, 4, 5, 8] {
+            let long_a = "a".repeat(256 + l);
+            let long_1 = format!("1{}", "b".repeat(255 + l));
+            for t in [format!("{long_a}"), format!("{long_a}-US"), format!("en-{long_a}"), format!("en-{long_a}-US"), format!("en-Latn-{long_a}"), format!("en-US-{long_a}"), format!("en-US-{long_1}"), format!("en-{}", "7".repeat(256 + l))] {
+                wraps.push(t.into_bytes());
+            }
+        }
+        d.list("subtags of length 256 + L (L a legal subtag length) in every position", &wraps);
+    }
     let nl = cfg.pick(20_000, 300_000);
     d.strategy("very long variant lists: 20-80 variants drawn from a 12-element pool, so repeats are certain (proptest)", &gen::s_langid_many_variants(), cfg.seed, &format!("{tag}-manyvar"), nl, |b| b.clone());
     d.total
